@@ -174,7 +174,7 @@ def evaluate(plan, ctx):
     return Result(nt, ev)
 
 
-SUBCHECKS = [SubCheck("bookkeeping", strategy, evaluate, quick=1500, thorough=25000)]
+SUBCHECKS = [SubCheck("bookkeeping", strategy, evaluate, quick=3000, thorough=25000)]
 KNOWN = {}
 
 MANIFEST = {
